@@ -11,6 +11,7 @@ import (
 	"time"
 
 	"github.com/hprose/hprose-golang/v3/rpc/core"
+	"github.com/hprose/hprose-golang/v3/rpc/plugins/timeout"
 	"github.com/hprose/hprose-golang/v3/rpc/socket"
 	"github.com/hprose/hprose-golang/v3/rpc/udp"
 	"github.com/hprose/hprose-golang/v3/rpc/websocket"
@@ -181,9 +182,103 @@ type c10Case struct {
 	Fault string   `json:"fault"` // none | close | abort | garbage | silent | errframe
 }
 
+// c10Slow: slow service functions against the time-outs: the service-side execute time-out
+// (plugins/timeout) and the client's own time-out, over a real service. Every call returns by its
+// bound; once the functions have ended no goroutine is left behind on either side; the client and the
+// service stay usable.
+func c10Slow(t *tr.Writer, id int, c c10Case) {
+	svc := core.NewService()
+	fnMs, execMs, clientMs := 60, 20, 0
+	if c.Fault == "client-timeout" {
+		fnMs, execMs, clientMs = 60, 0, 20
+	}
+	if execMs > 0 {
+		svc.Use(timeout.New(time.Duration(execMs) * time.Millisecond))
+	}
+	svc.AddFunction(func(p string, slow bool) string {
+		if slow {
+			time.Sleep(time.Duration(fnMs) * time.Millisecond)
+		}
+		return p
+	}, "echo")
+	env, err := rpcenv.Start(c.Kind, svc, false)
+	if err != nil {
+		t.Emit(tr.Rec{"ev": "setup-failed", "err": err.Error()})
+		return
+	}
+	defer env.Close()
+	client := core.NewClient(env.URL)
+	if clientMs > 0 {
+		client.Timeout = time.Duration(clientMs) * time.Millisecond
+	}
+	defer client.Abort()
+	call := func(cc, n int, slow bool, bound int) {
+		t.Emit(tr.Rec{"ev": "callB", "c": cc, "n": n})
+		t0 := time.Now()
+		res, err := client.Invoke("echo", []interface{}{muxPayload(cc, n), slow})
+		r := muxRet{kind: "resp", rc: -1, rn: -1}
+		if err != nil {
+			r = muxRet{kind: "err", err: err.Error()}
+		} else if len(res) == 1 {
+			if s, ok := res[0].(string); ok {
+				if rc, rn, ok := muxParse([]byte(s)); ok {
+					r.rc, r.rn = rc, rn
+					t.Emit(tr.Rec{"ev": "answer", "c": rc, "n": rn})
+				}
+			}
+		}
+		t.Emit(tr.Rec{"ev": "ret", "c": cc, "n": n, "kind": r.kind, "rc": r.rc, "rn": r.rn, "ms": int(time.Since(t0) / time.Millisecond), "bound": bound, "err": r.err})
+	}
+	call(1, 1, false, 2000)
+	var wg sync.WaitGroup
+	for cc := 2; cc <= 9; cc++ {
+		wg.Add(1)
+		go func(cc int) {
+			defer wg.Done()
+			for n := 1; n <= 3; n++ {
+				call(cc, n, true, 20+1500) // the time-out plus slack
+			}
+		}(cc)
+	}
+	wg.Wait()
+	// census of request-handling goroutines (idle connections and their loops are not requests): once the
+	// functions have ended none is left in the service's or the client's call path
+	leak := 0
+	for i := 0; i < 400; i++ {
+		if leak = inFlightGoroutines(); leak <= 0 {
+			break
+		}
+		time.Sleep(5 * time.Millisecond)
+	}
+	t.Emit(tr.Rec{"ev": "quiesce", "pending": 0, "leak": leak, "pooled": 0})
+	call(10, 1, false, 2000)
+	t.Emit(tr.Rec{"ev": "fresh", "ok": true})
+}
+
+// inFlightGoroutines counts the goroutines (other than the caller) that are inside the call path of the
+// library: rpc/core or a plugin.
+func inFlightGoroutines() int {
+	buf := make([]byte, 1<<20)
+	buf = buf[:runtime.Stack(buf, true)]
+	n := 0
+	for i, g := range strings.Split(string(buf), "\n\n") {
+		if i == 0 {
+			continue // the caller
+		}
+		if strings.Contains(g, "hprose-golang/v3/rpc/core.") || strings.Contains(g, "hprose-golang/v3/rpc/plugins/") {
+			n++
+		}
+	}
+	return n
+}
+
 func c10Run(t *tr.Writer, id int, c c10Case) {
 	Watch(id, tr.Rec{"kind": c.Kind, "fault": c.Fault}, c)
 	t.Reset(id, tr.Rec{"kind": c.Kind, "fault": c.Fault, "mustfail": false, "input": c})
+	if c.Fault == "exec-timeout" || c.Fault == "client-timeout" {
+		c10Slow(t, id, c)
+		return
+	}
 	e := newMuxEnv(c.Kind, t)
 	defer e.close()
 	roleOf := func(args []interface{}) int {
@@ -511,6 +606,14 @@ func runC10(a Args) tr.Summary {
 		}
 		if id%97 == 1 && len(sum.Samples) < 5 {
 			sum.Samples = append(sum.Samples, c)
+		}
+	}
+	for _, kind := range []string{"mock", "tcp", "http", "udp"} {
+		for _, f := range []string{"exec-timeout", "client-timeout"} {
+			id++
+			c := c10Case{Kind: kind, Fault: f}
+			c10Run(t, id, c)
+			nontrivial[fmt.Sprint(c)] = true
 		}
 	}
 	sum.Cases = id
